@@ -66,6 +66,7 @@ def run(tier, seed):
     v.assumptions += ["allocation bound: peak heap growth during deserialize <= 64 MiB + 4 KiB per input byte, measured by a counting global allocator in the harness",
                       "after an accepted corrupt load only absence of panics is required (the property allows any answers)",
                       "an abort of the recorder process during a load (allocation failure, stack overflow) is reported as a violation naming the input; a recorder that times out is a tool error"]
+    vlib.scale_stage(v, wd, "C10")
     return v.finish("fault_enumeration",
                     "two valid images (a 15-rule engine with every list/category and cosmetic kind; a 4-rule engine): every prefix, every single-bit flip "
                     "(quick: every 3rd byte of the second image), 18 byte substitutions at every structural offset (bytes >= 0x80) and at sampled others, "
